@@ -29,6 +29,12 @@ static void post_invariant(const Instance& f) {
   VASSERT(C01, inv_config(f), "the configuration is well-formed after the step");
   VASSERT(C01, inv_quiescent(f), "nothing is left half-applied after the step (no pending marks, empty queue)");
   VASSERT(C03, inv_monitor(f), "entered states == active states after the step");
+  VASSERT(C03, g_this_consistent, "all callbacks of a state are delivered to one and the same object");
+#ifdef VM_FOR_STATES
+#define VM_X_(T, i) if (g_this[i]) VASSERT(C03, g_this[i] == (const void*) static_cast<const St<i>*>(&f.template access<T>()), "callbacks are delivered to the object that access<State>() returns");
+  VM_FOR_STATES(VM_X_)
+#undef VM_X_
+#endif
   assert_queries_agree(f);
 }
 
@@ -517,9 +523,10 @@ static void body_anonymous_defaults() {
 }
 static bool all_children_leaves(int r) { for (int c = r + 1; c < VM_NS; ++c) if (VM_SPEC[c].parent == r && VM_SPEC[c].kind != K_LEAF) return false; return true; }
 static void body_utilize_nested(int region, int full) {         // utilize(region): every nested region entered resolves by utility too
-  ARBITRARY_ACTIVE(f);
+  ARBITRARY_ACTIVE(f);                                            // full: bit 0 = also assert the product/mean rule, bit 1 = changeTo(region) instead of utilize(region)
   predraw_answers();
-  call_immediate(f, 4, region);
+  call_immediate(f, (full & 2) ? 0 : 4, region);
+  full &= 1;
   post_invariant(f);
   if (!g_round_cancelled) {
     for (int r = region; r < VM_NS; ++r) {
@@ -571,6 +578,36 @@ static void body_randomize(int kind, int region) {            // kind: 5 = rando
       VASSERT(C12, g_util_val[chosen] > 0.0f, "randomize never activates a sub-state with zero utility");
     }
     VASSERT(C12, g_rng_draws_ == 1, "randomize consumes exactly one random number per random region it resolves");
+  }
+  post_invariant(f);
+}
+// the exact rule of the statement, free of rounding: utilities are small integers, the generator output lies on the grid m / 2^20, so every
+// product and partial sum the library forms is exact in binary32 and "the cumulative-utility interval that contains r x sum" is decidable in integers
+static void body_randomize_exact(int kind, int region) {
+  ARBITRARY_ACTIVE(f);
+  predraw_answers();
+  unsigned k[VM_NS] = {};
+  for (int c = region + 1; c < VM_NS; ++c) if (VM_SPEC[c].parent == region) { k[c] = nd_u8_below(4); g_util_val[c] = (float) k[c]; }
+  int8_t top = -1; for (int c = region + 1; c < VM_NS; ++c) if (VM_SPEC[c].parent == region && g_rank_val[c] > top) top = g_rank_val[c];
+  uint64_t sum = 0; for (int c = region + 1; c < VM_NS; ++c) if (VM_SPEC[c].parent == region && g_rank_val[c] == top) sum += k[c];
+  VASSUME(sum > 0);                                            // documented precondition: positive top-rank utility sum
+  VREACH("randomize on the exact grid");
+  g_rng_grid = true; g_rng_draws_ = 0;
+  call_immediate(f, kind, region);
+  g_rng_grid = false;
+  if (!g_round_cancelled) {
+    const Prong p = f._core.registry.compoActive[VM_SPEC[region].fork];
+    VASSERT(C12, g_rng_draws_ == 1, "randomize consumes exactly one random number per random region it resolves");
+    uint64_t before = 0; bool found = false;
+    for (int c = region + 1; c < VM_NS; ++c) if (VM_SPEC[c].parent == region && g_rank_val[c] == top) {
+      const uint64_t after = before + k[c];
+      // interval [before, after) scaled by 2^20 against m x sum
+      if (VM_SPEC[c].prong == p) { found = true;
+        VASSERT(C12, (before << 20) <= (uint64_t) g_rng_m * sum && (uint64_t) g_rng_m * sum < (after << 20),
+                "randomize activates the sub-state whose cumulative-utility interval contains r times the sum (exact grid: integer utilities, r = m / 2^20)"); }
+      before = after;
+    }
+    VASSERT(C12, found, "randomize activates a top-rank sub-state");
   }
   post_invariant(f);
 }
